@@ -22,6 +22,14 @@ enum Op {
     NewSection(Vec<u8>, Option<Vec<u8>>),
     RemoveSection(Vec<u8>, Option<Vec<u8>>),
     Rename(Vec<u8>, Option<Vec<u8>>, Vec<u8>, Option<Vec<u8>>),
+    /// `raw_values_mut_by(sec, sub, key)?` and then `set_all(v)`
+    MvSetAll(Vec<u8>, Option<Vec<u8>>, Vec<u8>, Vec<u8>),
+    /// … `set_at(n % len, v)`
+    MvSetAt(Vec<u8>, Option<Vec<u8>>, Vec<u8>, usize, Vec<u8>),
+    /// … `delete(n % len)`
+    MvDelete(Vec<u8>, Option<Vec<u8>>, Vec<u8>, usize),
+    /// … `delete_all()`
+    MvDeleteAll(Vec<u8>, Option<Vec<u8>>, Vec<u8>),
 }
 
 fn oh(b: &Option<Vec<u8>>) -> String {
@@ -38,6 +46,10 @@ impl Op {
             Op::NewSection(a, b) => format!("new:{}:{}", hex(a), oh(b)),
             Op::RemoveSection(a, b) => format!("rmsec:{}:{}", hex(a), oh(b)),
             Op::Rename(a, b, c, d) => format!("mv:{}:{}:{}:{}", hex(a), oh(b), hex(c), oh(d)),
+            Op::MvSetAll(a, b, c, d) => format!("mvall:{}:{}:{}:{}", hex(a), oh(b), hex(c), hex(d)),
+            Op::MvSetAt(a, b, c, n, d) => format!("mvat:{}:{}:{}:{}:{}", hex(a), oh(b), hex(c), n, hex(d)),
+            Op::MvDelete(a, b, c, n) => format!("mvdel:{}:{}:{}:{}", hex(a), oh(b), hex(c), n),
+            Op::MvDeleteAll(a, b, c) => format!("mvdelall:{}:{}:{}", hex(a), oh(b), hex(c)),
         }
     }
     fn decode(s: &str) -> Option<Op> {
@@ -51,6 +63,10 @@ impl Op {
             ["new", a, b] => Op::NewSection(unhex(a)?, ob(b)?),
             ["rmsec", a, b] => Op::RemoveSection(unhex(a)?, ob(b)?),
             ["mv", a, b, c, d] => Op::Rename(unhex(a)?, ob(b)?, unhex(c)?, ob(d)?),
+            ["mvall", a, b, c, d] => Op::MvSetAll(unhex(a)?, ob(b)?, unhex(c)?, unhex(d)?),
+            ["mvat", a, b, c, n, d] => Op::MvSetAt(unhex(a)?, ob(b)?, unhex(c)?, n.parse().ok()?, unhex(d)?),
+            ["mvdel", a, b, c, n] => Op::MvDelete(unhex(a)?, ob(b)?, unhex(c)?, n.parse().ok()?),
+            ["mvdelall", a, b, c] => Op::MvDeleteAll(unhex(a)?, ob(b)?, unhex(c)?),
             _ => return None,
         })
     }
@@ -116,6 +132,32 @@ fn apply(f: &mut gix_config::File<'static>, op: &Op) -> Result<(), &'static str>
                 Lookup(l) => lookup_kind(&l),
                 Section(h) => header_kind(&h),
             })
+        }
+        Op::MvSetAll(sec, sub, key, val) => {
+            let key = s(key);
+            let mut m = f.raw_values_mut_by(s(sec), sub_ref(sub), &key).map_err(|e| lookup_kind(&e))?;
+            m.set_all(val.as_bstr());
+            Ok(())
+        }
+        Op::MvSetAt(sec, sub, key, n, val) => {
+            let key = s(key);
+            let mut m = f.raw_values_mut_by(s(sec), sub_ref(sub), &key).map_err(|e| lookup_kind(&e))?;
+            let len = m.len();
+            m.set_at(n % len, val.as_bstr());
+            Ok(())
+        }
+        Op::MvDelete(sec, sub, key, n) => {
+            let key = s(key);
+            let mut m = f.raw_values_mut_by(s(sec), sub_ref(sub), &key).map_err(|e| lookup_kind(&e))?;
+            let len = m.len();
+            m.delete(n % len);
+            Ok(())
+        }
+        Op::MvDeleteAll(sec, sub, key) => {
+            let key = s(key);
+            let mut m = f.raw_values_mut_by(s(sec), sub_ref(sub), &key).map_err(|e| lookup_kind(&e))?;
+            m.delete_all();
+            Ok(())
         }
     }
 }
@@ -298,6 +340,48 @@ fn intended(prev: &View, op: &Op) -> Option<Vec<View>> {
             out.secs[i].name = new_name.to_ascii_lowercase();
             out.secs[i].sub = new_sub.clone();
             out.secs[i].legacy = false;
+            Some(vec![out])
+        }
+        Op::MvSetAll(sec, sub, key, _) | Op::MvSetAt(sec, sub, key, ..) | Op::MvDelete(sec, sub, key, _) | Op::MvDeleteAll(sec, sub, key) => {
+            // every occurrence of the key over all matching sections, in file order
+            let k = key.to_ascii_lowercase();
+            let mut occ: Vec<(usize, usize)> = Vec::new();
+            for (i, sv) in prev.secs.iter().enumerate() {
+                if matches(sv, sec, sub) {
+                    for (j, (kk, _)) in sv.entries.iter().enumerate() {
+                        if *kk == k {
+                            occ.push((i, j));
+                        }
+                    }
+                }
+            }
+            if occ.is_empty() {
+                return None;
+            }
+            match op {
+                Op::MvSetAll(.., val) => {
+                    for (i, j) in occ {
+                        out.secs[i].entries[j].1 = val.clone();
+                        out.secs[i].explicit[j] = true;
+                    }
+                }
+                Op::MvSetAt(_, _, _, n, val) => {
+                    let (i, j) = occ[n % occ.len()];
+                    out.secs[i].entries[j].1 = val.clone();
+                    out.secs[i].explicit[j] = true;
+                }
+                Op::MvDelete(_, _, _, n) => {
+                    let (i, j) = occ[n % occ.len()];
+                    out.secs[i].entries.remove(j);
+                    out.secs[i].explicit.remove(j);
+                }
+                _ => {
+                    for (i, j) in occ.into_iter().rev() {
+                        out.secs[i].entries.remove(j);
+                        out.secs[i].explicit.remove(j);
+                    }
+                }
+            }
             Some(vec![out])
         }
     }
@@ -594,7 +678,7 @@ fn gen_ops(r: &mut Rng, file: &[u8]) -> Vec<Op> {
             pick_bytes(r, KEYS)
         };
         let key = if r.chance(1, 25) { pick_bytes(r, &["", "1k", "a_b", "-x", "a b", "k="]) } else { key };
-        let op = match r.below(20) {
+        let op = match r.below(25) {
             0..=5 => Op::Set(sec, sub, key, gen_value(r)),
             6 | 7 => Op::SetExisting(sec, sub, key, gen_value(r)),
             8..=10 => Op::Push(sec, sub, key, if r.chance(1, 6) { None } else { Some(gen_value(r)) }),
@@ -609,6 +693,10 @@ fn gen_ops(r: &mut Rng, file: &[u8]) -> Vec<Op> {
                 Op::NewSection(name, sub)
             }
             16 | 17 => Op::RemoveSection(sec, sub),
+            20 | 21 => Op::MvSetAll(sec, sub, key, gen_value(r)),
+            22 => Op::MvSetAt(sec, sub, key, r.usize(5), gen_value(r)),
+            23 => Op::MvDelete(sec, sub, key, r.usize(5)),
+            24 => Op::MvDeleteAll(sec, sub, key),
             _ => {
                 let new_name = if r.chance(1, 12) { b"in valid".to_vec() } else { pick_bytes(r, SECTION_NAMES) };
                 let new_sub = match r.below(3) {
@@ -631,6 +719,7 @@ fn gen_ops(r: &mut Rng, file: &[u8]) -> Vec<Op> {
         }
         if std::str::from_utf8(match &op {
             Op::Set(a, ..) | Op::SetExisting(a, ..) | Op::Push(a, ..) | Op::Remove(a, ..) | Op::NewSection(a, _) | Op::RemoveSection(a, _) | Op::Rename(a, ..) => a,
+            Op::MvSetAll(a, ..) | Op::MvSetAt(a, ..) | Op::MvDelete(a, ..) | Op::MvDeleteAll(a, ..) => a,
         })
         .is_ok()
         {
@@ -640,6 +729,7 @@ fn gen_ops(r: &mut Rng, file: &[u8]) -> Vec<Op> {
     // names and keys go through `&str` parameters
     ops.retain(|op| match op {
         Op::Set(a, _, c, _) | Op::SetExisting(a, _, c, _) | Op::Push(a, _, c, _) | Op::Remove(a, _, c) => a.is_ascii() && c.is_ascii(),
+        Op::MvSetAll(a, _, c, _) | Op::MvSetAt(a, _, c, ..) | Op::MvDelete(a, _, c, _) | Op::MvDeleteAll(a, _, c) => a.is_ascii() && c.is_ascii(),
         Op::NewSection(a, _) | Op::RemoveSection(a, _) => a.is_ascii(),
         Op::Rename(a, _, c, _) => a.is_ascii() && c.is_ascii(),
     });
@@ -679,6 +769,12 @@ fn corpus() -> Vec<(Vec<u8>, Vec<Op>)> {
         (b("[a]\nk=1\nk=2\n"), vec![Op::Remove(b("a"), None, b("k")), Op::Remove(b("a"), None, b("k")), Op::Remove(b("a"), None, b("k"))]),
         (b("[a] k=1\n"), vec![Op::Set(b("a"), None, b("k"), b("2"))]),
         (b("[a]\nk = \"v\" ; c\n"), vec![Op::SetExisting(b("a"), None, b("k"), b("a;b"))]),
+        (b("[a]\nk=1\n[b]\nk=5\n[a]\nk=2\nj=9\n\tk = 3 ; c\n"), vec![Op::MvSetAll(b("a"), None, b("K"), b("x y "))]),
+        (b("[a]\nk=1\n[b]\nk=5\n[a]\nk=2\nj=9\n\tk = 3 ; c\n"), vec![Op::MvSetAt(b("a"), None, b("k"), 1, b("x")), Op::MvSetAt(b("a"), None, b("k"), 5, b("y"))]),
+        (b("[a]\nk=1\n[b]\nk=5\n[a]\nk=2\nj=9\n\tk = 3 ; c\n"), vec![Op::MvDelete(b("a"), None, b("k"), 2), Op::MvDelete(b("a"), None, b("k"), 0), Op::MvDeleteAll(b("a"), None, b("k")), Op::MvDeleteAll(b("a"), None, b("k"))]),
+        (b("[a]\nk\nk = a\\\n  b\nk=\n"), vec![Op::MvSetAll(b("a"), None, b("k"), b("z"))]),
+        (b("[a]\nk\nk = a\\\n  b\nk=\n"), vec![Op::MvDeleteAll(b("a"), None, b("k"))]),
+        (b("[a]\nk=1\n"), vec![Op::MvSetAll(b("a"), None, b("j"), b("z")), Op::MvSetAll(b("b"), None, b("k"), b("z")), Op::MvSetAll(b("a"), sb("s"), b("k"), b("z"))]),
     ]
 }
 
